@@ -7,7 +7,7 @@
    A Python set is its iteration order (a list); "independent of hash randomisation" is
    invariance under every permutation of that list. *)
 From Coq Require Import Permutation.
-From MV Require Import Base.Strs FS.Replace Determ.Model Determ.Proofs Determ.ReplaceProofs.
+From MV Require Import Base.Strs FS.Replace Determ.Model Determ.DepFile Determ.Proofs Determ.ReplaceProofs Determ.DepFileProofs.
 
 (* ---- byte-identical generated text, independent of set iteration order ---- *)
 
@@ -31,6 +31,23 @@ Theorem C06_ninja_statements_order_independent : forall es es' : list nelem,
   Forall2 same_elem es es' -> ninja_statements es = ninja_statements es'.
 Proof. exact ninja_statements_perm. Qed.
 Print Assumptions C06_ninja_statements_order_independent.
+
+(* configure_file(depfile:): the transitive dependencies that become build-definition files
+   (build.ninja regeneration statement, intro-buildsystem_files.json) are exactly the sorted,
+   duplicate-free successors of the nodes reachable from the output (depfile.py:69-83) ... *)
+Theorem C06_depfile_dependencies_spec : forall df fuel name R,
+  get_all_dependencies fuel df name = Some R ->
+  (forall x, In x R <-> exists n, reach df name n /\ succ df n x)
+  /\ NoDup R /\ Sorted.StronglySorted (le str_ltb) R.
+Proof. exact get_all_dependencies_spec. Qed.
+Print Assumptions C06_depfile_dependencies_spec.
+
+(* ... hence independent of the iteration order of every deps set (and of the fuel) *)
+Theorem C06_depfile_dependencies_order_independent : forall df df' fuel fuel' name R R',
+  same_depfile df df' ->
+  get_all_dependencies fuel df name = Some R -> get_all_dependencies fuel' df' name = Some R' -> R = R'.
+Proof. exact get_all_dependencies_order_independent. Qed.
+Print Assumptions C06_depfile_dependencies_order_independent.
 
 (* exe-wrapper pickle names: the digest pre-image, hence the command line in build.ninja, does
    not depend on the order in which the environment dict was filled (backends.py:809-827) *)
@@ -150,6 +167,24 @@ Theorem C06_reconfigure_identity : forall (outs : list (str * str)) (s : fs),
     /\ (forall d, In d (map fst outs) -> fs_lookup (tilde d) s2 = None).
 Proof. exact reconfigure_identity. Qed.
 Print Assumptions C06_reconfigure_identity.
+
+(* ... for any number of further no-change reconfigurations *)
+Theorem C06_reconfigure_history_identity : forall (outs : list (str * str)) (s : fs),
+  NoDup (map fst outs) -> tilde_free (map fst outs) ->
+  exists s1, configure outs s = Ok s1 /\ forall n, exists sn, configure_n n outs s1 = Ok sn
+    /\ (forall p, (forall d, In d (map fst outs) -> p <> tilde d) -> fs_lookup p sn = fs_lookup p s1)
+    /\ (forall d, In d (map fst outs) -> fs_lookup d sn = fs_lookup d s1).
+Proof. exact reconfigure_history_identity. Qed.
+Print Assumptions C06_reconfigure_history_identity.
+
+(* the content of every configure output is independent of the build directory's history *)
+Theorem C06_configure_content_history_independent : forall (outs : list (str * str)) (s s' : fs),
+  NoDup (map fst outs) -> tilde_free (map fst outs) ->
+  exists t t', configure outs s = Ok t /\ configure outs s' = Ok t'
+    /\ forall d c, In (d, c) outs ->
+         option_map fdata (fs_lookup d t) = Some c /\ option_map fdata (fs_lookup d t') = Some c.
+Proof. exact configure_content_history_independent. Qed.
+Print Assumptions C06_configure_content_history_independent.
 
 (* build.ninja: written to a temporary, then os.replace: content is exactly the generated
    text whatever the directory's history; the temporary is gone; at every intermediate state
